@@ -622,6 +622,9 @@ func runCase(c string) string {
 	if f[0] == "set" {
 		return runSet(f)
 	}
+	if f[0] == "ftype" {
+		return runFtype(f)
+	}
 	if len(f) != 13 || f[0] != "c18" {
 		return "unknown-case"
 	}
